@@ -60,7 +60,10 @@ func (fx *FuncExec) safe(ps *pathState, in ssa.Instruction, kind, text string, g
 // nilCheck: dereference of p
 func (fx *FuncExec) nilCheck(ps *pathState, in ssa.Instruction, p PtrV) bool {
 	if p.Sym != "" {
-		return false
+		// unknown pointer: it must not be nil (obligation), then it is resolved lazily
+		fx.safe(ps, in, "nil", "nil pointer dereference", tNot(tEq(Term{p.Sym, SRef}, Term{"ref_nil", SRef})))
+		_, ok := ps.st.resolve(p)
+		return ok
 	}
 	if p.Obj == 0 {
 		fx.safe(ps, in, "nil", "nil pointer dereference", tFalse)
@@ -84,11 +87,10 @@ func (fx *FuncExec) step(ps *pathState, in ssa.Instruction, pred *ssa.BasicBlock
 		v := fx.val(st, x.Val)
 		p, ok := pv.(PtrV)
 		if !ok || !fx.nilCheck(ps, in, p) {
-			if ok && p.Sym != "" {
-				c.unsup("store through untracked pointer at %s", fx.posStr(in.Pos()))
-				fx.havocHeap(st)
-			}
 			return
+		}
+		if p.Sym != "" {
+			p, _ = st.resolve(p)
 		}
 		v = fx.adapt(st, v, x.Addr.Type().(*types.Pointer).Elem())
 		if !st.store(p, v) {
@@ -105,13 +107,13 @@ func (fx *FuncExec) step(ps *pathState, in ssa.Instruction, pred *ssa.BasicBlock
 				return
 			}
 			if ok {
+				if p.Sym != "" {
+					fx.nilCheck(ps, in, p)
+				}
 				if lv, ok := st.load(p); ok {
 					st.regs[x] = lv
 					return
 				}
-			}
-			if ok && p.Sym != "" {
-				c.unsup("load through untracked pointer at %s", fx.posStr(in.Pos()))
 			}
 			st.regs[x] = st.freshVal(x.Type(), x.Name(), 0)
 		case token.ARROW:
@@ -154,6 +156,9 @@ func (fx *FuncExec) step(ps *pathState, in ssa.Instruction, pred *ssa.BasicBlock
 			st.regs[x] = PtrV{Sym: c.fresh("fieldaddr", SRef).S, Typ: ft}
 			return
 		}
+		if p.Sym != "" {
+			p, _ = st.resolve(p)
+		}
 		st.regs[x] = PtrV{Obj: p.Obj, Path: append(append([]Step(nil), p.Path...), Step{Field: x.Field}), Typ: ft}
 	case *ssa.Field:
 		v := fx.val(st, x.X)
@@ -184,6 +189,9 @@ func (fx *FuncExec) step(ps *pathState, in ssa.Instruction, pred *ssa.BasicBlock
 			if !fx.nilCheck(ps, in, b) {
 				st.regs[x] = PtrV{Sym: c.fresh("elemaddr", SRef).S, Typ: x.Type()}
 				return
+			}
+			if b.Sym != "" {
+				b, _ = st.resolve(b)
 			}
 			st.regs[x] = PtrV{Obj: b.Obj, Path: append(append([]Step(nil), b.Path...), Step{Field: -1, Idx: idx}), Typ: x.Type()}
 		default:
